@@ -418,6 +418,16 @@ class ImplWorld:
             self.annot = 'nextof %s %s %d' % (w, st[1], st[2])
             st[2] += 1
             V[w] = next(st[0]); return None
+        if kw == 'zipiter':
+            # (implementation-side only) iterate two filtrations in step, to the end of both
+            f = T.next(); g = T.next(); itf = iter(V[f].complexes()); itg = iter(V[g].complexes())
+            for _ in range(len(list(V[f].indices())) + len(list(V[g].indices())) + 1):
+                for it in (itf, itg):
+                    try:
+                        next(it)
+                    except StopIteration:
+                        pass
+            return None
         if kw == 'complexes-partial':
             # (implementation-side only) take n snapshots from the iterator and abandon it
             f = T.next(); n = T.nat(); it = iter(V[f].complexes())
